@@ -65,6 +65,19 @@ var targets = []target{
 	{"sequencers/single/sequencer.go", "Sequencer", "isValid"},
 	{"sequencers/single/sequencer.go", "Sequencer", "SubmitBatchTxs"},
 	{"sequencers/single/sequencer.go", "Sequencer", "GetNextBatch"},
+	{"pkg/store/store.go", "DefaultStore", "SetHeight"},
+	{"pkg/store/store.go", "DefaultStore", "Height"},
+	{"pkg/store/store.go", "DefaultStore", "SaveBlockData"},
+	{"pkg/store/store.go", "DefaultStore", "GetHeader"},
+	{"pkg/store/store.go", "DefaultStore", "UpdateState"},
+	{"pkg/store/store.go", "DefaultStore", "SetMetadata"},
+	{"pkg/store/store.go", "", "encodeHeight"},
+	{"pkg/store/store.go", "", "decodeHeight"},
+	{"block/manager.go", "", "getInitialState"},
+	{"block/manager.go", "Manager", "LoadCache"},
+	{"block/manager.go", "Manager", "SaveCache"},
+	{"pkg/cache/cache.go", "", "saveMapGob"},
+	{"block/pending_base.go", "pendingBase", "setLastSubmittedHeight"},
 	{"types/da.go", "", "SubmitWithHelpers"},
 	{"types/da.go", "", "RetrieveWithHelpers"},
 }
@@ -101,6 +114,7 @@ func list(xs []string) string { return "[" + strings.Join(xs, "; ") + "]" }
 type tr struct {
 	imports map[string]bool // local names of imported packages in the current file
 	n       int
+	nresults int                 // number of results of the function being translated
 	goTmps  map[string][]string // errgroup variable -> temporaries holding the results of its g.Go(func) bodies
 }
 
@@ -391,6 +405,33 @@ func (t *tr) stmt(s ast.Stmt) string {
 			if plain {
 				return "(SVarZero " + list(zs) + ")"
 			}
+			// var ( a = e; b T; ... ): one statement per spec, in order
+			var parts []string
+			okAll := true
+			for _, sp := range gd.Specs {
+				vs, ok := sp.(*ast.ValueSpec)
+				if !ok {
+					okAll = false
+					break
+				}
+				switch {
+				case len(vs.Values) == 0 && vs.Type != nil:
+					var z []string
+					for _, n := range vs.Names {
+						z = append(z, "("+q(n.Name)+", "+q(text(vs.Type))+")")
+					}
+					parts = append(parts, "(SVarZero "+list(z)+")")
+				case len(vs.Values) == len(vs.Names):
+					for i, n := range vs.Names {
+						parts = append(parts, "(SAssign ["+q(n.Name)+"] "+t.expr(vs.Values[i])+")")
+					}
+				default:
+					okAll = false
+				}
+			}
+			if okAll && len(parts) > 0 {
+				return "(SIf [] (EBool true) " + list(parts) + " [])"
+			}
 		}
 		return "(SUnknown " + q("declaration "+text(x)) + ")"
 	case *ast.IncDecStmt:
@@ -459,6 +500,18 @@ func (t *tr) stmt(s ast.Stmt) string {
 		}
 		// a call with an effect in unconditional position of the condition (`if !x.CompareAndSwap(a, b)`) is
 		// evaluated first, into a temporary: expressions are pure in Model/GoLite.v
+		if be, ok := x.Cond.(*ast.BinaryExpr); ok && be.Op == token.LAND && x.Init == nil && x.Else == nil {
+			if c, neg := hoistable(be.Y); c != nil {
+				// `if a && x.CompareAndSwap(..) { body }`: the call is made only when a holds
+				tmp := fmt.Sprintf("$t%d", t.fresh())
+				cond := "(EVar " + q(tmp) + ")"
+				if neg {
+					cond = "(ENot " + cond + ")"
+				}
+				inner := "(SIf [(SAssign [" + q(tmp) + "] " + t.expr(c) + ")] " + cond + " " + t.block(x.Body) + " [])"
+				return "(SIf [] " + t.expr(be.X) + " [" + inner + "] [])"
+			}
+		}
 		if c, neg := hoistable(x.Cond); c != nil && x.Init == nil {
 			tmp := fmt.Sprintf("$t%d", t.fresh())
 			cond := "(EVar " + q(tmp) + ")"
@@ -568,6 +621,18 @@ func (t *tr) stmt(s ast.Stmt) string {
 	case *ast.ForStmt, *ast.RangeStmt:
 		return "(SUnknown " + q("loop") + ")"
 	case *ast.ReturnStmt:
+		// `return x.M(...)` in a function with ONE result: the call is made first (it may be a call with an effect,
+		// which expressions cannot have in Model/GoLite.v), then its value is returned
+		if len(x.Results) == 1 && t.nresults == 1 {
+			if c, ok := x.Results[0].(*ast.CallExpr); ok {
+				if se, ok := c.Fun.(*ast.SelectorExpr); ok {
+					if _, isPkg := t.isPkg(se.X); !isPkg {
+						tmp := fmt.Sprintf("$r%d", t.fresh())
+						return "(SIf [] (EBool true) [(SAssign [" + q(tmp) + "] " + t.expr(c) + "); (SReturn [(EVar " + q(tmp) + ")])] [])"
+					}
+				}
+			}
+		}
 		return "(SReturn " + t.exprs(x.Results) + ")"
 	case *ast.BlockStmt:
 		return "(SIf [] (EBool true) " + t.block(x) + " [])"
@@ -682,6 +747,16 @@ func main() {
 			}
 			for _, n := range p.Names {
 				params = append(params, q(n.Name))
+			}
+		}
+		t.nresults = 0
+		if fd.Type.Results != nil {
+			for _, r := range fd.Type.Results.List {
+				if len(r.Names) == 0 {
+					t.nresults++
+				} else {
+					t.nresults += len(r.Names)
+				}
 			}
 		}
 		fmt.Fprintf(&b, "(* %s: %s *)\nDefinition %s : gfun := {| f_recv := %s; f_params := %s; f_body :=\n  %s |}.\n\n",
